@@ -314,6 +314,12 @@ def check(c):
         got = np.asarray(call(f, np.array(X), np.array(Z), pair=True, axis=1, **kw)).tolist()
         want = [o_dist(a, b, name, p) for a, b in zip(X, Z)]
         add('rows-axis1', np.shape(got) == np.shape(want) and veq(got, want, 1e-9, 1e-11), '(c) %r vs %r' % (got, want))
+        # a single point against a set of points (either order): the point counts as a set of one
+        for tagd, A, B, wantd in (('point-vs-set-axis0', np.array(X[0]), np.array(Y), [[o_dist(X[0], b, name, p) for b in Y]]),
+                                  ('set-vs-point-axis0', np.array(X), np.array(Y[0]), [[o_dist(a, Y[0], name, p)] for a in X])):
+            got = np.asarray(call(f, A, B, axis=0, **kw)).tolist()
+            add(tagd, np.shape(got) == np.shape(wantd) and all(close(g, v) for gr, wr in zip(got, wantd) for g, v in zip(gr, wr)),
+                '(d) %r vs %r' % (got, wantd))
         return bad, False
     if name == 'Lnorm' and 'axis' in c:     # the norm taken along an axis of a 2-D array; p omitted -> 1
         X, ax = c['X'], c['axis']
